@@ -1322,6 +1322,10 @@ func Main() {
 	cases("values", r.N(300, 20000), groupValues)
 	cases("strings", r.N(50000, 20000000)/stringsPerCase, groupStrings)
 	cases("chain", r.N(400, 40000), groupChain)
+	if sel == "" || strings.Contains(","+sel+",", ",recursive,") {
+		// one case per child process: which member of a recursive type family the codec meets first matters
+		r.Cases("recursive", 18, core.Opts{Procs: 18, StallSec: 300, MemMB: 2048, Env: []string{"GOMAXPROCS=1"}}, groupRecursive)
+	}
 	if sel == "" || strings.Contains(","+sel+",", ",pool,") {
 		// overlapping encodings need real parallelism: own child options
 		r.Cases("pool", r.N(48, 3000), core.Opts{Procs: 4, Workers: 2, StallSec: 900, MemMB: 4096, Env: []string{"GOMAXPROCS=4"}}, groupPool)
@@ -1343,6 +1347,7 @@ func Main() {
 	r.Floor("account_roundtrips", 100)
 	r.Floor("header_roundtrips", 100)
 	r.Floor("pool_concurrent_encodings", 10000)
+	r.Floor("recursive_values_roundtripped", 18)
 	for _, m := range []string{"len-leading-zero", "long-form-short-payload", "single-byte-wrapped", "size+1", "size-1", "size=2^32", "size=2^64-1"} {
 		r.Floor("rewrites:"+m, 50)
 	}
